@@ -199,6 +199,8 @@ def check(prog, ctx, only_c04=False):
                            line=st.line)
     ctx.notes.append('exit sites outside table functions: %d' % nsites)
     elementwise(prog, ctx, E, wrappers)
+    delegation(prog, ctx, E, wrappers)
+    domain_dependency(prog, ctx, E)
 
 
 # ----------------------------------------------------------------------------- element-wise guards (C10.e)
@@ -319,6 +321,7 @@ def elementwise(prog, ctx, E, wrappers):
         (L + 'Interpolation::Interpolation', lambda f: len(f.params) == 3, 'Interpolation(table)'),
         (L + 'natural_units::In_Units', lambda f: len(f.params) == 4 and f.params[1]['ty'].startswith('std::vector') and
          f.params[0]['ty'].startswith('std::vector<std::vector'), 'In_Units(table,dims)'),
+        (L + 'Transpose_Lists', lambda f: len(f.params) == 1, 'Transpose_Lists(lists)'),
     ]
     for q, sel, name in ragged:
         fn = prog.fn(q, pred=sel)
@@ -339,6 +342,15 @@ def elementwise(prog, ctx, E, wrappers):
                     stt.env['this.' + i['field']] = sx.rvalue(i['init'], stt)
                 except Undecided:
                     pass
+        # locals defined before the loop (e.g. N = lists.size())
+        for top in fn.body['body']:
+            if any(x is lp[1] for x in walk_stmts(top)):
+                break
+            if top['k'] == 'Decl':
+                try:
+                    sx.exec(top, [stt])
+                except Undecided:
+                    pass
         cl = sx.counted(lp[1], stt)
         outer = fn.params[0]['name']
         n = sp.Symbol('len(%s)' % outer, integer=True, nonnegative=True)
@@ -353,3 +365,57 @@ def elementwise(prog, ctx, E, wrappers):
             ok = ok and ('%s[%s].size()' % (outer, var['name']) in txt)
         ctx.decide(E, name + ':ragged', fn, ok, 'every row length is checked: ' + detail,
                    'row-length guard does not cover every row: ' + detail, line=st.line)
+
+
+def delegation(prog, ctx, E, wrappers):
+    """Transpose_Lists(v1, v2): either guards len(v1)!=len(v2) itself or forwards {v1, v2} to the checked list-of-lists overload."""
+    fn = prog.fn(L + 'Transpose_Lists', 2)
+    p0, p1 = fn.params[0]['name'], fn.params[1]['name']
+    sites = G.exit_sites(prog, fn, wrappers)
+    own = False
+    if sites:
+        pred = G.f_or(*[s_.reach for s_ in sites])
+        try:
+            n, bad = G.truth_table(prog, pred, G.product_rows(**{'len(%s)' % p0: [0, 1, 2, 3], 'len(%s)' % p1: [0, 1, 2, 3]}),
+                                   lambda r: r['len(%s)' % p0] != r['len(%s)' % p1])
+            own = not bad
+        except (Undecided, KeyError):
+            own = False
+    fwd = False
+    rets = [s_ for s_ in walk_stmts(fn.body) if s_['k'] == 'Return']
+    if len(rets) == 1 and rets[0].get('e') is not None:
+        e = strip(rets[0]['e'])
+        if e.get('k') == 'Call' and (e.get('callee') or {}).get('q') == L + 'Transpose_Lists' and len(e.get('args', [])) == 1:
+            names = [n_['name'] for n_ in walk_expr(e['args'][0]) if n_.get('k') == 'Ref' and n_.get('rk') == 'param']
+            fwd = names == [p0, p1]
+    ctx.decide(E, 'Transpose_Lists(v1,v2):lengths', fn, own or fwd,
+               'lists of different length are rejected (%s)' % ('own guard' if own else 'forwards {v1,v2} to the checked overload'),
+               'two lists of different length are neither rejected here nor forwarded to the checked overload: out-of-bounds read')
+
+
+def domain_dependency(prog, ctx, E):
+    """Locate compares x with the `domain` field: it must hold the ends of the abscissae as finally stored (after unit scaling)."""
+    ctor = prog.fn(L + 'Interpolation::Interpolation', 4)
+    body = ctor.body['body']
+    pos_dom = None
+    pos_scale = []
+    dom_ok = False
+    xfield = None
+    for i in ctor.inits:
+        if i.get('field') and strip_casts(i['init']).get('name') == ctor.params[0]['name']:
+            xfield = i['field']
+    for idx, s in enumerate(body):
+        for s2 in walk_stmts(s):
+            for e in stmt_exprs(s2):
+                for n in walk_expr(e):
+                    if n['k'] == 'Bin' and n['op'] in ('*=', '=') and strip(n['lhs']).get('k') == 'Index' and \
+                            strip(strip(n['lhs'])['base']).get('name') == xfield and idx > 0:
+                        pos_scale.append(idx)
+                    if n['k'] == 'Bin' and n['op'] == '=' and strip(n['lhs']).get('k') == 'Member' and strip(n['lhs'])['name'] == 'domain':
+                        pos_dom = idx
+                        txt = show(n['rhs']).replace(' ', '').replace('this.', '')
+                        dom_ok = ('%s[0]' % xfield in txt) and ('%s[N-1]' % xfield in txt or '%s.back()' % xfield in txt)
+    ok = pos_dom is not None and dom_ok and all(p < pos_dom for p in pos_scale)
+    ctx.decide(E, 'Interpolation:domain-field', ctor, ok, 'domain = {X[0], X[N-1]} is taken after the abscissae received their unit factor',
+               'the domain tested by Locate is not the range of the stored abscissae (domain assignment at statement %s, abscissa scaling at %s, '
+               'ends ok=%s): in-domain arguments are rejected when x_dim != 1' % (pos_dom, pos_scale, dom_ok))
